@@ -320,7 +320,7 @@ Plan generate_plan(const std::string& prop, unsigned long long vseed, unsigned l
             p.ops[(size_t)t].fail_k = K_ALL; p.target = t;
         }
     } else if (prop == "C20") {
-        p.mgrs = {r.chance(700) ? MK_LIBC : MK_SIM}; p.mgr_mask = {0};
+        { int k = r.range(0, 9); p.mgrs = {k < 6 ? MK_LIBC : k < 8 ? MK_SIM : MK_COMPLETED}; p.mgr_mask = {0}; }
         gen::TextCfg tc = hc.text; tc.mutate_per1024 = 30; tc.max_len = 40;
         std::string base = gen::abs_uri_text(r, tc);
         Op b0; b0.kind = OP_PARSE; b0.a = 0; b0.text = base; b0.entry = 3; p.ops.push_back(b0);
@@ -335,7 +335,13 @@ Plan generate_plan(const std::string& prop, unsigned long long vseed, unsigned l
             bool have0 = false;
             for (int i = 0; i < nops; i++) {
                 Op o; o.task = t;
-                int k = r.range(0, 11);
+                int k = r.range(0, 13);
+                if (k == 12) {   // a private list composed into a malloc'ed string (released by the harness at the end)
+                    Op mkl; mkl.task = t; mkl.kind = OP_MKLIST; mkl.a = q; gen::query_items(r, mkl, 3, 8); tops[(size_t)t].push_back(mkl);
+                    o.kind = OP_COMPOSE_MALLOC; o.a = q; o.entry = r.range(0, 2); o.opt = r.range(0, 3);
+                    tops[(size_t)t].push_back(o); continue;
+                }
+                if (k == 13) { if (!have0) continue; o.kind = OP_FREE; o.a = s0; o.entry = r.range(0, 1); o.refree = r.range(0, 2); have0 = false; tops[(size_t)t].push_back(o); continue; }
                 if (k <= 1 || (!have0 && k >= 6 && k <= 8)) { o.kind = OP_PARSE; o.a = s0; o.text = r.chance(500) ? gen::related_text(r, base, tc) : gen::uri_text(r, tc); o.entry = r.range(0, 5); o.placement = r.range(0, 1); have0 = true; }
                 else if (k <= 3) { o.kind = OP_ADDBASE; o.a = s1; o.b = have0 && r.chance(500) ? s0 : 1; o.c = 0; o.opt = r.range(0, 1); o.entry = r.range(0, 2); }
                 else if (k == 4) { o.kind = OP_REMOVEBASE; o.a = s1; o.b = r.chance(500) ? 1 : 0; o.c = r.chance(500) ? 0 : 1; o.opt = r.range(0, 1); o.entry = r.range(0, 1); }
